@@ -26,7 +26,19 @@ def gen(rng):
     if kind == "HarmonicSmoothingOperator":
         c.update(sigma=rng.choice([0.0, 0.3, 1.0]))
     if kind == "LinearInterpolator":
-        c.update(points=[[rng.uniform(-1, n * d + 1) for n, d in zip(shape, dist)] for _ in range(rng.randint(1, 4))], pre=0, post=0)
+        def coord(n, d):
+            L = n * d
+            r = rng.random()
+            if r < 0.25:
+                return -rng.uniform(0.01, 0.99) * L                      # below zero, not grid aligned
+            if r < 0.4:
+                return L + rng.uniform(0.0, 1.0) * L                      # beyond the upper edge
+            if r < 0.55:
+                return rng.randint(-2 * n, 3 * n) * d                     # exactly on a node (any period)
+            if r < 0.7:
+                return rng.uniform(0, L) + rng.choice([-3, -2, 2, 5]) * L  # several periods away
+            return rng.uniform(0, L)
+        c.update(points=[[coord(n, d) for n, d in zip(shape, dist)] for _ in range(rng.randint(1, 5))], pre=0, post=0)
     if kind == "LOSResponse":
         c.update(starts=[[rng.uniform(-0.2, 1.2) * n * d for n, d in zip(shape, dist)] for _ in range(3)],
                  ends=[[rng.uniform(-0.2, 1.2) * n * d for n, d in zip(shape, dist)] for _ in range(3)],
@@ -67,6 +79,88 @@ def build(case):
     raise ValueError(kind)
 
 
+def _interp_ref(case, x, points):
+    """documented definition of LinearInterpolator: periodic multilinear interpolation between the grid nodes"""
+    import itertools
+    shape, dist = case["shape"], case["dist"]
+    f = np.asarray(x).reshape(shape)
+    out = []
+    for p in points:
+        q = [pj / dj for pj, dj in zip(p, dist)]
+        base = [int(np.floor(v)) for v in q]
+        exc = [v - b for v, b in zip(q, base)]
+        tot = 0.0
+        for e in itertools.product((0, 1), repeat=len(shape)):
+            w = 1.0
+            for ej, cj in zip(e, exc):
+                w *= cj if ej else (1.0 - cj)
+            tot = tot + w * f[tuple((b + ej) % n for b, ej, n in zip(base, e, shape))]
+        out.append(tot)
+    return np.array(out)
+
+
+def _los_ref(case, x, M=20000):
+    """documented definition of LOSResponse (sigmas = 0): line integral of the piecewise constant field, sampled"""
+    shape, dist = np.array(case["shape"]), np.array(case["dist"])
+    f = np.asarray(x).reshape(case["shape"])
+    t = (np.arange(M) + 0.5) / M
+    out = []
+    for s, e in zip(case["starts"], case["ends"]):
+        s, e = np.array(s), np.array(e)
+        P = (s[:, None] + t[None, :] * (e - s)[:, None]) / dist[:, None] + 0.5
+        inside = np.all((P > 0) & (P < shape[:, None]), axis=0)
+        pix = np.clip(np.floor(P).astype(np.int64), 0, shape[:, None] - 1)
+        out.append((f[tuple(pix)] * inside).sum() * np.linalg.norm(e - s) / M)
+    return np.array(out)
+
+
+def _definition_check(case, op, rs, sig):
+    """the action equals the operator's documented definition (independent numpy evaluation)"""
+    import nifty.cl as ift
+    kind = case["cls"]
+    dom = op.domain
+    if kind == "LinearInterpolator":
+        x = rs.randint(-4, 5, dom.shape).astype(np.float64)
+        got = op(ift.makeField(dom, x)).asnumpy()
+        want = _interp_ref(case, x, case["points"])
+        tol = 1e-11 * (np.abs(x).max() + 1)
+        if np.abs(got - want).max() > tol:
+            i = int(np.argmax(np.abs(got - want)))
+            return (f"LinearInterpolator: value at {case['points'][i]} is {got[i]!r}, the periodic multilinear interpolation of the "
+                    f"grid values gives {want[i]!r}", sig("periodic-definition"))
+        # invariance under a shift by one period in every coordinate, constants are reproduced
+        L = [n * d for n, d in zip(case["shape"], case["dist"])]
+        k = [int(rs.randint(-2, 3)) for _ in L]
+        pts2 = np.array([[pj + kj * Lj for pj, kj, Lj in zip(p, k, L)] for p in case["points"]]).T
+        got2 = ift.LinearInterpolator(dom, pts2)(ift.makeField(dom, x)).asnumpy()
+        if np.abs(got2 - got).max() > 1e-9 * (np.abs(x).max() + 1):
+            return ("LinearInterpolator: result changes when the sampling points are shifted by whole periods", sig("period-shift"))
+        const = op(ift.full(dom, 3.0)).asnumpy()
+        if np.abs(const - 3.0).max() > 1e-12:
+            return ("LinearInterpolator: a constant field is not reproduced", sig("constant"))
+    elif kind == "LOSResponse" and case.get("sigmas") is None:
+        x = rs.randint(0, 5, dom.shape).astype(np.float64)
+        got = op(ift.makeField(dom, x)).asnumpy()
+        want = _los_ref(case, x)
+        Ls = np.array([np.linalg.norm(np.array(e) - np.array(s)) for s, e in zip(case["starts"], case["ends"])])
+        tol = (sum(case["shape"]) + 4) * Ls / 20000 * 4 + 1e-4 * Ls + 1e-6
+        if np.any(np.abs(got - want) > tol):
+            i = int(np.argmax(np.abs(got - want) - tol))
+            return (f"LOSResponse: line {i} gives {got[i]!r}, the sampled line integral of the field is {want[i]!r}",
+                    sig("line-integral"))
+    elif kind == "FFTOperator" and not case.get("pre") and not case.get("post"):
+        x = rs.randint(-3, 4, dom.shape) + (1j * rs.randint(-3, 4, dom.shape) if case["cplx"] else 0)
+        got = op(ift.makeField(dom, x.astype(np.complex128 if case["cplx"] else np.float64))).asnumpy()
+        dv = dom[0].scalar_dvol
+        if dom[0].harmonic:
+            want = np.fft.ifftn(x) * dom.size * dv
+        else:
+            want = np.fft.fftn(x) * dv
+        if np.abs(got - want).max() > 1e-10 * (np.abs(want).max() + 1):
+            return ("FFTOperator.times differs from dvol · (i)fftn of the field", sig("fft-definition"))
+    return None
+
+
 def oracle(case):
     kind = case["cls"]
     sig = lambda k, **kw: dict(cls=kind, kind=k, tol=True, **kw)
@@ -102,6 +196,9 @@ def oracle(case):
             rhs = np.vdot(AHy, x1)
             if abs(lhs - rhs) > 1e-9 * (abs(lhs) + abs(rhs) + 1):
                 return (f"{kind}: <y,Ax> = {lhs} but <A^H y,x> = {rhs}", sig("adjoint"))
+        r = _definition_check(case, op, rs, sig)
+        if r is not None:
+            return r
         well_conditioned = kind != "HarmonicSmoothingOperator"     # its inverse divides by exp(-2π²σ²k²) (may underflow)
         if op.capability & 4 and well_conditioned:
             back = U.to_flat(U.apply_checked(op, U.apply_checked(op, fx1, 1, problems), 4, problems), dom)
